@@ -90,7 +90,8 @@ class Engine(EngineBase):
     def _generate(self, rng, tier):
         P = self.prop
         knobs = {"listing": rng.choice(["shuffle", "shuffle", "sorted", "reverse"]),
-                 "chunk": rng.choice(["none", "split2"]), "clock": rng.choice(["inc", "coarse"])}
+                 "chunk": rng.choice(["none", "split2"]), "clock": rng.choice(["inc", "coarse"]),
+                 "fd_rmtree": rng.random() < 0.5}
         sc = {"knobs": knobs, "focus": P, "observe_handles": rng.choice(["all", "lazy", "lazy"]),
               "proj_spelling": rng.choice(["plain", "plain", "plain", "dotdot", "symlink"])}
         ops = []
